@@ -186,11 +186,10 @@ func genC13(e *emitter, tier string, seed uint64) {
 		e.run("C13.enc", hex.EncodeToString([]byte{byte(v)}))
 		e.run("C13.minpush", hex.EncodeToString([]byte{byte(v)}))
 	}
-	if !quick {
-		for _, l := range pushLensBig {
-			e.run("C13.enc", showItems([][]byte{r.bytes(l), r.bytes(3)}))
-			e.note("enc.len=" + strconv.Itoa(l))
-		}
+	// the PUSHDATA4 boundary (65536 and its neighbours) is part of every run
+	for _, l := range pushLensBig {
+		e.run("C13.enc", showItems([][]byte{r.bytes(l), r.bytes(3)}))
+		e.note("enc.len=" + strconv.Itoa(l))
 	}
 	n := 300
 	if !quick {
